@@ -604,6 +604,15 @@ func (e *Engine) LenOf(v ssa.Value) Lin {
 	case *ssa.Convert:
 		// string <-> []byte
 		return e.LenOf(x.X)
+	case *ssa.Call:
+		// append(s, t...) has length len(s)+len(t)
+		if b, ok := x.Call.Value.(*ssa.Builtin); ok && b.Name() == "append" && len(x.Call.Args) == 2 {
+			return e.LenOf(x.Call.Args[0]).Add(e.LenOf(x.Call.Args[1]))
+		}
+		if l, ok := e.callLenEq(x, 0); ok && x.Call.Signature().Results().Len() == 1 {
+			e.cur = append(e.cur, x)
+			return l
+		}
 	case *ssa.Extract:
 		if call, ok := x.Tuple.(*ssa.Call); ok {
 			if l, ok := e.callLenEq(call, x.Index); ok {
